@@ -54,6 +54,19 @@ Theorem c09_socket_reader_cut : forall valid msgs chunks b t m,
 Proof. exact c09_reader_cut_proof. Qed.
 Print Assumptions c09_socket_reader_cut.
 
+(* and for every stream of octets, well-formed or not: the frames the reader delivers and the way it ends (the close, or the first
+   error) depend on the octets alone, never on how they were split into reads or on how many were already buffered *)
+Theorem c09_socket_reader_partition_invariant : forall valid fuel chunks1 chunks2 b,
+  Forall (fun c => c <> []) chunks1 -> Forall (fun c => c <> []) chunks2 -> concat chunks1 = concat chunks2 ->
+  read_all valid fuel b chunks1 = read_all valid fuel b chunks2.
+Proof. exact c09_reader_partition_proof. Qed.
+Print Assumptions c09_socket_reader_partition_invariant.
+
+Theorem c09_socket_reader_buffered : forall valid fuel chunks b,
+  Forall (fun c => c <> []) chunks -> read_all valid fuel b chunks = read_all valid fuel (b ++ concat chunks) [].
+Proof. exact read_all_canonical. Qed.
+Print Assumptions c09_socket_reader_buffered.
+
 Theorem c09_socket_reader_never_panics : forall valid fuel buf reads, snd (read_all valid fuel buf reads) <> RdPanic.
 Proof. exact c09_reader_np_proof. Qed.
 Print Assumptions c09_socket_reader_never_panics.
